@@ -531,6 +531,30 @@ example :
   simp only [npInvL, npInvN] at h
   exact absurd (h.1.1 (by decide)) (by decide)
 
+/-- the trees a history reaches: built with `lyd_new_*` (`freshL`), then any sequence of creations below an existing node, removals
+and validations (the steps of `runHist`, LyModel/Valid/Hist.lean) -/
+inductive Reachable (X : SchemaX) (o : VOpts) : List DNode → Prop where
+  | fresh (t : List DNode) : Reachable X o (freshL X.base t)
+  | create {t t' : List DNode} (under : Addr) (sub : List DNode) : Reachable X o t → applyCreate X.base under sub t = some t' → Reachable X o t'
+  | delete {t t' : List DNode} (addr : Addr) : Reachable X o t → applyDelete X.base addr t = some t' → Reachable X o t'
+  | validate {t : List DNode} : Reachable X o t → Reachable X o (validate X o t).tree
+
+/-- **`np_cont_dflt` along every history** (what the law `dflt-flag` of tools/checks/c07.py observes after every step): in every tree
+a history of edits and validations reaches — every schema, every variant, every option set — every non-presence container carries
+`LYD_DEFAULT` iff all its children do. -/
+theorem np_cont_dflt_reachable (X : SchemaX) (o : VOpts) (t : List DNode) (h : Reachable X o t) : npInvL X.base t := by
+  induction h with
+  | fresh t => exact npInvL_fresh X.base t
+  | create under sub _ hc ih => exact np_cont_dflt_create X.base under sub _ _ ih hc
+  | delete addr _ hd ih => exact np_cont_dflt_delete X.base addr _ _ ih hd
+  | validate _ ih => exact validate_npInv X o _ (halfInvL_of_npInvL X.base _ ih)
+
+/-- non-vacuity (schema `Sx`): build the empty `c` (new and default), validate — a reachable tree; `c` stays default, with its four
+default children -/
+example : Reachable Xx {} (validate Xx {} (freshL Sx [.inner 0 {} [] []])).tree ∧
+    (validate Xx {} (freshL Sx [.inner 0 {} [] []])).tree.map (fun n => (n.flags.dflt, n.kids.length)) = [(true, 4)] :=
+  ⟨Reachable.validate (Reachable.fresh _), by decide⟩
+
 /-! ## not proved
 
 -- (`validate_idempotent` for schemas with `choice` / `case`: proved for the repaired variants, for every tree under `NoNpContInCase`
